@@ -1,6 +1,6 @@
 (** Coinswap proofs, part 5: conservation (C02), limits and quotes (C08), caps (C09),
     who can be debited (C07), pro-rata and round-trip consequences (C01). *)
-From Coq Require Import ZArith List Bool Lia Psatz.
+From Coq Require Import ZArith List Bool Lia.
 From Canto Require Import Lib.SdkInt Lib.SdkDec Lib.SdkDecProofs Model.Coinswap
      Proofs.CoinswapBase Proofs.CoinswapEffects Proofs.CoinswapValue Proofs.CoinswapWF.
 Import ListNotations.
